@@ -90,7 +90,23 @@ SeedInRange(seed) == Len(seed) <= 3 /\ (Len(seed) = 3 => seed[3] < 8) /\ \A i \i
 (***************************************************************************)
 Rnd(seed, x) ==
     IF x.t = "o" THEN [seed |-> seed, v |-> Opaque, e |-> "unknown"]
-    ELSE IF x.t = "n" /\ x.n < 0 THEN [seed |-> seed, v |-> NZero, e |-> "unimplemented"]
+    ELSE IF x.t = "ninf" \/ (x.t = "n" /\ x.n < 0) THEN [seed |-> seed, v |-> NZero, e |-> "unimplemented"]
     ELSE IF IsZero(x) THEN [seed |-> seed, v |-> SeedValue(seed), e |-> ""]
     ELSE LET s2 == LcgNext(seed) IN [seed |-> s2, v |-> SeedValue(s2), e |-> ""]
+
+(***************************************************************************)
+(* Named arguments shared by MC_Rng, Trace_Rng and the harness.  Only the  *)
+(* sign of the argument matters -- as a real number, not after any         *)
+(* conversion: 0.5 and 2^-20 are positive, -0.5 is negative, -0 is zero,   *)
+(* NaN is neither negative nor zero and so advances like a positive one.   *)
+(***************************************************************************)
+ArgNames == {"pos", "zero", "neg", "half", "neghalf", "negzero", "tiny", "big", "threehalves", "nan", "pinf", "ninf"}
+ArgOf(sg) == CASE sg = "pos" -> NOne [] sg = "zero" -> NZero [] sg = "neg" -> NNeg(NOne)
+               [] sg = "half" -> Mk(1, 1) [] sg = "neghalf" -> Mk(0 - 1, 1) [] sg = "negzero" -> NegZero
+               [] sg = "tiny" -> Mk(1, 20) [] sg = "big" -> NInt(1000000) [] sg = "threehalves" -> Mk(3, 1)
+               [] sg = "nan" -> NaN [] sg = "pinf" -> PInf [] sg = "ninf" -> NInf
+\* the documented behaviour, stated without looking at the value's representation
+ArgAdvances(sg) == sg \in {"pos", "half", "tiny", "big", "threehalves", "nan", "pinf"}
+ArgRepeats(sg) == sg \in {"zero", "negzero"}
+ArgFails(sg) == sg \in {"neg", "neghalf", "ninf"}
 =============================================================================
